@@ -314,6 +314,7 @@ int parse_instruction_8008(AsmContext *asm_context, char *instr)
               print_error(
                 asm_context,
                 "Subroutine address needs to be a multiple of 8.");
+              return -1;
             }
 
             opcode = table_8008[n].opcode | operands[0].value;
